@@ -26,6 +26,23 @@ NOT_APPLICABLE = {
 }
 
 CHECKS = {
+    "C20": {
+        "engine": "c20_history",
+        "design_ref": "DESIGN.md 4.1",
+        "technique": "deterministic simulation: seeded interleaving of 2-4 clients owning unrelated designs in one interpreter, "
+                     "reject/io/abort fault injection, every client re-executed alone in a fresh forked interpreter and compared "
+                     "operation by operation on canonical digests; divergences attributed by forcing one process-wide variable "
+                     "to its interleaved trace; ddmin replay files",
+        "text": "Seeded search over histories: which unrelated designs were loaded, decomposed, refined, encoded or legalised "
+                "before the probed operation, in which order, with which loads rejected or killed midway. Each operation's "
+                "observable result (verdict, exception class, full canonical result; SAT clause sets modulo auxiliary "
+                "numbering) must equal that of the same script run alone in a fresh process. A divergence is attributed to "
+                "the process-wide variable that alone reproduces it; two attributed leaks are kept as known findings, "
+                "anything else is a violation. Sampling, not proof; the level fits because the property is a statement "
+                "about histories over process-global state.",
+        "note": "A forked child of a zygote that imported FRAME but executed no operation stands for a fresh interpreter. "
+                "Designs within one run stay within a factor 1000 in size. Known findings are keyed by attributed variable.",
+    },
     "C19": {
         "engine": "c19_documents",
         "design_ref": "DESIGN.md 4.3",
